@@ -11,6 +11,8 @@ package scen
 //
 //   c10_messenger.go  scenarios "messenger-bytes" and "putvalue-echo" (harness H2)
 //   c10_lookup.go     scenarios "lookup-overfeed" and "putvalue-echo-dht" (harness H1)
+//   c10_slow.go       scenario "messenger-slow" (harness H2): answers delivered on a schedule
+//                     (byte string + pacing), liveness rule with an absolute bound
 //
 // The one response class that is known to crash the client (a decodable reply
 // to PUT_VALUE that carries no record, DESIGN §7 #1) is generated only by the
